@@ -489,7 +489,7 @@ def _replay_enum_meta(job, inputs, notes):
     return _meta_findings(job["root"])
 
 
-def _top_findings(full_names: bool):
+def _top_findings(full_names, stride_offset=0):
     """the full enumeration; returns a finding or None"""
     from array import array
 
@@ -528,7 +528,9 @@ def _top_findings(full_names: bool):
                     raise Inconclusive("the enumeration no longer shares element objects between tokenizers; identity bookkeeping would exhaust memory")
             k = k * 4096 + e[1]
         keys.append(k)
-        if full_names:
+        if full_names is True or (full_names and (n + stride_offset) % full_names == 0):
+            # full_names: True = every tokenizer, an integer k = every k-th (a sample of ~300 000 names: a stable hash narrower than
+            # about 40 bits collides inside the sample with near certainty, a 64-bit one never does)
             hashes.append(tok.hash_int() & 0xFFFFFFFFFFFFFFFF)
     if len(table) >= 4096:
         raise Inconclusive("more than 4095 distinct elements: key packing too small")
@@ -536,15 +538,15 @@ def _top_findings(full_names: bool):
         return f"enumeration-count:MazeTokenizerModular | the enumeration yields {n} tokenizers, the parameter space predicts {PINNED_TOTAL}"
     if len(np.unique(np.frombuffer(keys, dtype=np.int64))) != n:
         return "enumeration-duplicate:MazeTokenizerModular | some tokenizer is yielded more than once"
-    if full_names and len(np.unique(np.frombuffer(hashes, dtype=np.uint64))) != n:
-        return "hash-or-name-collision | two of the enumerated tokenizers share a name or the low 64 bits of the stable hash"
+    if full_names and len(np.unique(np.frombuffer(hashes, dtype=np.uint64))) != len(hashes):
+        return (f"hash-or-name-collision | two of the {len(hashes)} enumerated tokenizers whose stable hash was computed share a name or the low 64 bits of the stable hash")
     return None
 
 
 def _run_enum_top(job):
     def run(ctx, pinned=None):
         ctx.inputs["dummy"] = z3.IntVal(0)
-        msg = _top_findings(job.get("full_names", False))
+        msg = _top_findings(job.get("full_names", False), job.get("offset", 0))
         ctx.notes["finding"] = msg
         return [("full enumeration: pinned size, product of the verified pools, every tokenizer exactly once"
                  + (", names and hashes pairwise distinct" if job.get("full_names") else ""), z3.BoolVal(msg is None))]
@@ -553,7 +555,7 @@ def _run_enum_top(job):
 
 
 def _replay_enum_top(job, inputs, notes):
-    return notes.get("finding") if notes.get("finding") else _top_findings(job.get("full_names", False))
+    return notes.get("finding") if notes.get("finding") else _top_findings(job.get("full_names", False), job.get("offset", 0))
 
 
 # ------------------------------------------------------------------------------------------------ enumeration vs call history
@@ -864,7 +866,7 @@ def jobs(tier, seed):
         for ch in _chunks(n, 170):
             out.append(dict(h="enum", root=root, idx=ch, label=f"enum:{root}[{ch[0]}:{ch[-1] + 1}]"))
         out.append(dict(h="enum_meta", root=root))
-    out.append(dict(h="enum_top", full_names=not q, max_seconds=3000.0))
+    out.append(dict(h="enum_top", full_names=(20 if q else True), offset=seed % 20, max_seconds=3000.0))
     out.append(dict(h="names"))
     out.append(dict(h="xproc"))
     out.append(dict(h="history"))
@@ -913,7 +915,7 @@ META = dict(
     stubs=["symbolic booleans report themselves as bool to isinstance(); fields of element classes whose is_valid contains an identity test "
            "(re-derived from source each run, see identity_test_sites) are forked to Python values first",
            "str()/format() of a symbolic field forks to its concrete rendering"],
-    outside=["hash collision-freeness is empirical (blake2b is C code); quick tier checks element pools and a cross-process sample, thorough tier all 5,878,656",
+    outside=["hash collision-freeness is empirical (blake2b is C code); quick tier checks element pools, a cross-process sample and every 20th of the 5,878,656 tokenizers (293,932 stable hashes pairwise distinct), thorough tier all 5,878,656",
              "ZANJ file round trips (I/O); only serialize()/load() through JSON text in memory",
              "PYTHONHASHSEED values other than 1 and 4242"],
     assumptions=["the parameter space is what the dataclass field type hints admit (bool, Literal, fixed tuples, unions, subclasses of abstract element classes)",
